@@ -72,6 +72,6 @@ def build(ctx):
                                 ('RW_unlock', [], False, None), ('RW_lock_shared', ['RW_readerRelease'], True, None), ('RW_try_lock_shared', ['RW_readerRelease'], False, None),
                                 ('RW_unlock_shared', ['RW_readerRelease'], False, None), ('RW_lock_upgrade', ['RW_setWriteBit', 'RW_waitForReaderDrain'], False, None),
                                 ('RW_lock_downgrade', ['RW_unlock'], False, None)):
-        units.append(Unit(fn.replace('RW_', 'RWLockImpl::'), 'cbmc', S, fn, defines=d, replace=rep, loop_contracts=loops, unwind=unw, expect=[r'postcondition'], timeout=600,
+        units.append(Unit(fn.replace('RW_', 'RWLockImpl::'), 'cbmc', S, fn, defines=d, replace=rep, loop_contracts=loops, unwind=unw, expect=[r'postcondition'], timeout=600, replay=dict(prog='replay/c22_replay.cpp', args=lambda ce, u: ['rw', '6'], no_rlimit=True),
                           assumptions=['try_lock drain loop bounded by the constant kTryLockDrainSpins: unwound completely'] if unw else []))
     return units
